@@ -48,9 +48,10 @@ type tcpConnSpec struct {
 	N           int      `json:"n,omitempty"`
 	Fin         bool     `json:"fin"`
 	Validate    bool     `json:"validate,omitempty"`
-	CReset      bool     `json:"client_resets_at_the_end,omitempty"`  // once its upload has reached the target and it has the target's output, the client aborts the connection (RST)
-	TReset      bool     `json:"target_resets_after_reply,omitempty"` // the target reads the whole upload, replies, then resets the connection (monitor-only cases)
-	TFailAfter  int      `json:"target_write_fails_after,omitempty"`  // the connection to the target accepts this many bytes, then every write fails (monitor-only cases)
+	LateByte    bool     `json:"last_byte_sent_just_before_the_deadline,omitempty"` // a prober that sends its last byte shortly before the handshake deadline: the deadline does not move
+	CReset      bool     `json:"client_resets_at_the_end,omitempty"`                // once its upload has reached the target and it has the target's output, the client aborts the connection (RST)
+	TReset      bool     `json:"target_resets_after_reply,omitempty"`               // the target reads the whole upload, replies, then resets the connection (monitor-only cases)
+	TFailAfter  int      `json:"target_write_fails_after,omitempty"`                // the connection to the target accepts this many bytes, then every write fails (monitor-only cases)
 	ConnectOK   bool     `json:"connect_ok"`
 	TOut        [2]int   `json:"tout"`
 	TLate       [2]int   `json:"tlate,omitempty"` // a second block the target sends only after the handshake timeout has long passed (the client is silent and keeps the connection open)
@@ -535,6 +536,12 @@ func runTCPConn(auth service.StreamAuthenticateFunc, sp *tcpConnSpec, tee *promT
 				ob.EOFHeld = true // the target finished long ago; its end-of-stream has not reached the client
 			}
 			tc.Write(wire[firstLen:])
+			return
+		}
+		if sp.LateByte && len(wire) > 1 {
+			tc.Write(wire[:len(wire)-1])
+			time.Sleep(tcpT - 60*time.Millisecond - time.Since(start))
+			tc.Write(wire[len(wire)-1:])
 			return
 		}
 		switch sp.Seg {
